@@ -4,6 +4,7 @@
 //    destroy:<slot>:<thread>
 //    eval:<slot>:<thread>:<src>     evaluate src (a definition); must succeed
 //    addfn:<slot>:<thread>:<name>:<k>     chai.add(fun([k](int x){return x+k;}), name)
+//    addconv:<slot>:<thread>:<ca|cb|cc>:<k>   chai.add(type_conversion<Src<N>, Tgt<N>>(... Tgt<N>{k}))
 //    use:<slot>:<thread>:<file>
 //    probe:<slot>:<thread>:<expr>:<expected rendering or !ERR>
 //  thread 0 is the main thread, 1..3 are long-lived workers (per-thread engine state lives as long as they do).
@@ -51,6 +52,17 @@ struct Worker {
     th.join();
   }
 };
+
+// user conversions: three source types, one target; which conversions exist is per engine
+template<int N> struct Tgt {
+  int v;
+};
+template<int N> struct Src {
+  int v = N;
+};
+template<int N> static void add_conv(ChaiScript_Basic &c, int k) {
+  c.add(type_conversion<Src<N>, Tgt<N>>([k](const Src<N> &) { return Tgt<N>{k}; }));
+}
 
 constexpr int NSLOTS = 6;
 alignas(64) static unsigned char g_fixed[NSLOTS][sizeof(ChaiScript_Basic)];
@@ -102,10 +114,16 @@ int main(int argc, char **argv) {
           g_use_counts[slot] = 0;
           int *cnt = &g_use_counts[slot];
           g_eng[slot]->add(fun([cnt]() { ++*cnt; }), "bump");
+          g_eng[slot]->add(fun([](const Tgt<0> &t) { return t.v; }), "tgt_ca");
+          g_eng[slot]->add(fun([](const Tgt<1> &t) { return t.v; }), "tgt_cb");
+          g_eng[slot]->add(fun([](const Tgt<2> &t) { return t.v; }), "tgt_cc");
+          g_eng[slot]->add(fun([]() { return Src<0>(); }), "mk_ca");
+          g_eng[slot]->add(fun([]() { return Src<1>(); }), "mk_cb");
+          g_eng[slot]->add(fun([]() { return Src<2>(); }), "mk_cc");
         });
         continue;
       }
-      auto parts = split(op, ':', kind == "probe" ? 5 : (kind == "addfn" ? 5 : 4));
+      auto parts = split(op, ':', kind == "probe" ? 5 : ((kind == "addfn" || kind == "addconv") ? 5 : 4));
       const int thr = std::stoi(parts[2]);
       ChaiScript_Basic *chai = g_eng[slot];
       if (kind == "destroy") {
@@ -127,6 +145,17 @@ int main(int argc, char **argv) {
           int k = std::stoi(parts[4]);
           vh::Outcome o = vh::classify([&]() -> std::string {
             chai->add(fun([k](int x) { return x + k; }), parts[3]);
+            return "";
+          });
+          if (o.cls != "ok") failures.push_back("definition-failed|" + step + "|" + o.cls + " " + o.what.substr(0, 150));
+        });
+      } else if (kind == "addconv") {
+        on_thread(thr, [&] {
+          int k = std::stoi(parts[4]);
+          vh::Outcome o = vh::classify([&]() -> std::string {
+            if (parts[3] == "ca") add_conv<0>(*chai, k);
+            else if (parts[3] == "cb") add_conv<1>(*chai, k);
+            else add_conv<2>(*chai, k);
             return "";
           });
           if (o.cls != "ok") failures.push_back("definition-failed|" + step + "|" + o.cls + " " + o.what.substr(0, 150));
